@@ -281,7 +281,7 @@ func explore(p *Prog, cf cfg) Result {
 				work = append(work, append(append([]int{}, ch[:i]...), alt))
 			}
 		}
-		if cf.Inject && len(res.Fails) == 0 {
+		if cf.Inject && (len(res.Fails) == 0 || !seen["panic"] && res.Nodes <= 8) {
 			for j := 0; j < ev; j++ {
 				rp, _, _, _ := runOne(p, 1, pre, j, cf)
 				op, _, _, _ := runOne(p, 0, pre, j, cf)
